@@ -1,0 +1,8 @@
+//go:build verif
+
+package tor
+
+// VerifCh returns the completion channel the reader last obtained (the one
+// its Read selects on).  Only meaningful while the reader's goroutine is
+// parked in that select or idle.
+func (r *Reader) VerifCh() <-chan struct{} { return r.ch }
